@@ -609,10 +609,10 @@ int SQLITE3::Handle::bind(bloc::Tuple& args)
         sqlite3_bind_double(_stmt, i, *v.numeric());
         break;
       case Type::LITERAL:
-        sqlite3_bind_text(_stmt, i, v.literal()->c_str(), v.literal()->size(), SQLITE_STATIC);
+        sqlite3_bind_text(_stmt, i, v.literal()->c_str(), v.literal()->size(), SQLITE_TRANSIENT);
         break;
       case Type::TABCHAR:
-        sqlite3_bind_blob(_stmt, i, v.tabchar()->data(), v.tabchar()->size(), SQLITE_STATIC);
+        sqlite3_bind_blob(_stmt, i, v.tabchar()->data(), v.tabchar()->size(), SQLITE_TRANSIENT);
         break;
       default:
         break;
